@@ -163,7 +163,8 @@ func ReadMultiSegmentFile(basePath string, globalBlockStart, globalBlockEnd int,
 	}
 	
 	segSize := DefaultSegmentSize
-	if opts != nil && opts.SegmentSize > 0 {
+	if opts != nil && opts.SegmentSize >= PageSize {
+		// a segment holds at least one page (smaller sizes would make blocksPerSegment zero)
 		segSize = opts.SegmentSize
 	}
 	blocksPerSegment := segSize / PageSize
@@ -192,7 +193,8 @@ func ReadMultiSegmentFile(basePath string, globalBlockStart, globalBlockEnd int,
 
 // GlobalBlockToSegment converts a global block number to segment info
 func GlobalBlockToSegment(globalBlock int, segmentSize int) (segmentNum, localBlock int) {
-	if segmentSize <= 0 {
+	if segmentSize < PageSize {
+		// a segment holds at least one page (smaller sizes would make blocksPerSegment zero)
 		segmentSize = DefaultSegmentSize
 	}
 	blocksPerSegment := segmentSize / PageSize
